@@ -7,11 +7,11 @@ from ..schema_info import Schema
 _C = {}
 
 
-def corpus(opts=()):
-    key = tuple(opts)
+def corpus(opts=(), proto="ks.proto", package="ks"):
+    key = (tuple(opts), proto, package)
     c = _C.get(key)
     if c is None:
-        c = Corpus(opts=opts)
+        c = Corpus(proto, package, opts=opts)
         c.schema = Schema(c.ref.fds)
         _C[key] = c
     return c
